@@ -68,6 +68,9 @@ type e2eInput struct {
 	// > 0: item BurstAt (a bad frame) and the two items after it are written to the socket in ONE piece, without
 	// waiting for the recorder in between: when it handles the bad frame the following frames are already in its buffer
 	BurstAt int `json:",omitempty"`
+	// the [thermal-motion] section of config.toml holds the PRELUDE's own settings while the prelude connection is
+	// served and is rewritten to this session's before the camera reconnects (the daemon re-reads it per connection)
+	PreludeOwnMotion bool `json:",omitempty"`
 }
 
 type e2eFile struct {
@@ -391,6 +394,11 @@ func e2eRun(in e2eInput) e2eObs {
 	os.Mkdir(out, 0755)
 	sock := filepath.Join(dir, "s")
 	ioutil.WriteFile(filepath.Join(dir, "config.toml"), []byte(in.toml(out, sock)), 0644)
+	if in.Prelude != nil && in.PreludeOwnMotion {
+		first := in
+		first.Motion = in.Prelude.Motion
+		ioutil.WriteFile(filepath.Join(dir, "config.toml"), []byte(first.toml(out, sock)), 0644)
+	}
 	nconn := 1
 	if in.Prelude != nil {
 		nconn = 2
@@ -483,10 +491,16 @@ func e2eRun(in e2eInput) e2eObs {
 		// An earlier connection of the same daemon process from a different camera: nothing of
 		// it may influence the connection under test.  Its files are removed before that starts.
 		pin := *in.Prelude
-		pin.Motion, pin.MinSecs, pin.MaxSecs, pin.PreviewSecs = in.Motion, in.MinSecs, in.MaxSecs, in.PreviewSecs
+		pin.MinSecs, pin.MaxSecs, pin.PreviewSecs = in.MinSecs, in.MaxSecs, in.PreviewSecs
+		if !in.PreludeOwnMotion {
+			pin.Motion = in.Motion
+		}
 		if _, why := session(pin); why != "" {
 			o.Why = "prelude: " + why
 			return o
+		}
+		if in.PreludeOwnMotion {
+			ioutil.WriteFile(filepath.Join(dir, "config.toml"), []byte(in.toml(out, sock)), 0644)
 		}
 		for _, dd := range []string{out, filepath.Join(out, "constant-recordings")} {
 			fis, _ := ioutil.ReadDir(dd)
@@ -632,12 +646,28 @@ func waitDrained(conn net.Conn) {
 // ---- generator ----
 func e2eGen(rng *rand.Rand, i int) e2eInput {
 	in := e2eGen1(rng, i)
-	if rng.Intn(2) == 0 {
+	same := i%4 == 2
+	if same {
+		// (files are needed to see the header: the continuous recorder always writes some)
+		in.Const, in.WindowClosed, in.DiskFull, in.DiskMode = true, false, false, 0
+	}
+	if rng.Intn(2) == 0 || same {
 		// a first connection from another camera (other model / resolution / frame rate) before the one under test
 		for try := 0; try < 20; try++ {
 			p := e2eGen1(rng, i)
 			// prefer pairs whose per-model motion defaults differ (lepton3.5 against the others)
 			crosses := (p.Model == "lepton3.5") != (in.Model == "lepton3.5")
+			if same {
+				// the SAME camera model reconnects after [thermal-motion] was edited
+				if p.Model == in.Model && p.Format == in.Format {
+					if len(p.Items) > 50 {
+						p.Items = p.Items[:50]
+					}
+					in.Prelude, in.PreludeOwnMotion = &p, true
+					break
+				}
+				continue
+			}
 			if p.Model != in.Model && (crosses || try > 10) {
 				if len(p.Items) > 50 {
 					p.Items = p.Items[:50]
